@@ -258,7 +258,8 @@ pub fn eval_notify(case: &NotifyCase, stats: &mut Stats) -> Outcome {
             long_run = true;
         }
         for _ in 0..*rep {
-            let got = imp.update_service_state_entry(&format!("key{}", k), &format!("value{}", v), case.max_count);
+            // values: the two the service uses, and the empty string (a value like any other)
+            let got = imp.update_service_state_entry(&format!("key{}", k), ["success", "", "error"][*v as usize % 3], case.max_count);
             let want = match rf.get_mut(k) {
                 None => {
                     rf.insert(*k, (*v, 1));
